@@ -87,12 +87,12 @@ fn gen_text(ch: &mut Ch, max: usize, structural: bool) -> String {
 
 fn gen_doc(ch: &mut Ch) -> Doc {
     let newlines = ch.below(2, "sink.newlines") == 1;
-    let nl = ch.below(5, "sink.nlinks") as usize;
+    let nl = ch.below(if thorough() { 7 } else { 5 }, "sink.nlinks") as usize;
     let mut links = Vec::new();
     for _ in 0..nl {
         // targets: any text without '>'
         let target = format!("/{}", gen_text(ch, 6, true).replace('>', "x"));
-        let na = ch.below(5, "sink.nattrs") as usize;
+        let na = ch.below(if thorough() { 7 } else { 5 }, "sink.nattrs") as usize;
         let mut attrs = Vec::new();
         for _ in 0..na {
             let key = *ch.pick(&["rt", "if", "sz", "title", "ct", "obs"], "sink.key");
